@@ -18,3 +18,8 @@ for kind in (1,):
           unwind=8 * n + 3, tier=tier,
           functions=["varintBP128" + f for f in KINDS[kind].split("/")] + ["varintBP128MaxBytes"],
           bounded="arrays of exactly %d values below 2^%d (partial-block path only: full 128-value blocks and wide values are not reached); loops unwound with unwinding assertions" % (n, bits))
+B("MaxBitWidth64", "H_bpMaxBitWidth64", "varintBP128MaxBitWidth64", ["C02"], mode="M2", weave=[("varintBP128.c", "bp128.loops")],
+  pre_unwindset=["varintBP128BitsNeeded64.0:66"], solvers=["minisat", "cadical"], functions=["varintBP128MaxBitWidth64", "varintBP128BitsNeeded64"])
+B("MaxBitWidth32", "H_bpMaxBitWidth32", "varintBP128MaxBitWidth32", ["C02"], mode="M2", weave=[("varintBP128.c", "bp128.loops")],
+  pre_unwindset=["varintBP128BitsNeeded32.0:34"], solvers=["minisat", "cadical"], functions=["varintBP128MaxBitWidth32", "varintBP128BitsNeeded32"],
+  note="scalar path (the NEON/AVX2/SSE branches are not compiled in this build)")
